@@ -4,7 +4,8 @@ import WebAuthnModel.Theorems.C02
   C13 — credentials are scoped to the RP host: origin and RP ID matching.
   The label walk theorems are in `Proofs/Origin.lean` (`labelWalk_iff`, `labelWalkLoop_eq`, the rejection corollaries);
   this file states the ceremony-level consequences.
-  Host extraction (`url.Parse(..).Hostname()`) is an oracle: statements are about the hosts the URL parser reports.
+  Host extraction (`url.Parse(..).Hostname()`) is the Lean model of net/url, `Url.hostOf` (`Model/Url.lean`):
+  statements are about the hosts `Url.hostOf` reports; the origin decision asks the environment nothing.
 -/
 namespace WebAuthn.C13
 open WebAuthn
@@ -13,21 +14,22 @@ open WebAuthn
     (and the RP host is non-empty: an origin that is empty, unparsable or host-less is never acceptable, on either side) -/
 theorem origin_acceptable_iff (env : Prog.Env) (clientOrigin rpOrigin : Bytes) :
     Prog.run env (originMatches clientOrigin rpOrigin) = true ↔
-      ∃ ch rh, env.answer (.urlHost clientOrigin) = .bytes ch ∧ env.answer (.urlHost rpOrigin) = .bytes rh ∧
+      ∃ ch rh, Url.hostOf clientOrigin = some ch ∧ Url.hostOf rpOrigin = some rh ∧
         rh ≠ [] ∧ (ch = rh ∨ ∃ p : Bytes, ch = p ++ dot :: rh) :=
   C01.origin_iff env clientOrigin rpOrigin
 
 /-- an unparsable client origin (the URL parser reports an error) is never acceptable -/
-theorem unparsable_origin_rejected (env : Prog.Env) (co ro : Bytes) (h : ∀ b, env.answer (.urlHost co) ≠ .bytes b) :
+theorem unparsable_origin_rejected (env : Prog.Env) (co ro : Bytes) (h : Url.hostOf co = none) :
     Prog.run env (originMatches co ro) = false := by
   cases hr : Prog.run env (originMatches co ro) with
   | false => rfl
   | true =>
     obtain ⟨ch, _, h1, _⟩ := (origin_acceptable_iff env co ro).1 hr
-    exact absurd h1 (h ch)
+    rw [h] at h1
+    cases h1
 
 /-- a host-less client origin (empty host) is never acceptable -/
-theorem hostless_origin_rejected (env : Prog.Env) (co ro : Bytes) (h : env.answer (.urlHost co) = .bytes []) :
+theorem hostless_origin_rejected (env : Prog.Env) (co ro : Bytes) (h : Url.hostOf co = some []) :
     Prog.run env (originMatches co ro) = false := by
   cases hr : Prog.run env (originMatches co ro) with
   | false => rfl
@@ -40,28 +42,19 @@ theorem hostless_origin_rejected (env : Prog.Env) (co ro : Bytes) (h : env.answe
     · exact absurd h2.symm hne
     · cases p <;> simp at h2
 
-/-- scheme and port are irrelevant: only what the URL parser reports as host enters the decision -/
+/-- scheme and port are irrelevant: only what the URL parser reports as host enters the decision
+    (two client origins with the same `Url.hostOf`, and two RP origins with the same `Url.hostOf`, give the same decision) -/
 theorem only_hosts_matter (env : Prog.Env) (co co' ro ro' : Bytes)
-    (hc : env.answer (.urlHost co) = env.answer (.urlHost co')) (hr : env.answer (.urlHost ro) = env.answer (.urlHost ro')) :
+    (hc : Url.hostOf co = Url.hostOf co') (hr : Url.hostOf ro = Url.hostOf ro') :
     Prog.run env (originMatches co ro) = Prog.run env (originMatches co' ro') := by
-  have e : ∀ a b, (Prog.run env (originMatches a b) = true ↔ _) := fun a b => origin_acceptable_iff env a b
-  cases h1 : Prog.run env (originMatches co ro) <;> cases h2 : Prog.run env (originMatches co' ro') <;> try rfl
-  · have := (e co' ro').1 h2
-    rw [← hc, ← hr] at this
-    rw [(e co ro).2 this] at h1
-    exact absurd h1 (by decide)
-  · have := (e co ro).1 h1
-    rw [hc, hr] at this
-    rw [(e co' ro').2 this] at h2
-    exact absurd h2 (by decide)
+  rw [originMatches_run_eq, originMatches_run_eq, hc, hr]
 
 /-- the relying party's RP ID is the host name of its configured origin (the origin itself when it does not parse) -/
 theorem rp_id_is_host (env : Prog.Env) (origin : Bytes) :
-    (Prog.run env (newRP origin)).id = (match env.answer (.urlHost origin) with | .bytes h => h | _ => origin) ∧
+    (Prog.run env (newRP origin)).id = (match Url.hostOf origin with | some h => h | none => origin) ∧
     (Prog.run env (newRP origin)).origin = origin := by
   unfold newRP rpId
-  simp only [Prog.run_bind, Prog.run_query, Prog.run_pure]
-  cases env.answer (.urlHost origin) <;> simp
+  cases Url.hostOf origin <;> simp [Prog.run_bind, Prog.run_pure]
 
 /-- authentication accepts only authenticator data whose RP ID hash is SHA-256 of exactly the RP ID -/
 theorem auth_rpIdHash_exact (env : Prog.Env) (rp : RP) (o : RequestOptions) (a : Assertion) (get : Bytes → GetOutcome) (cred : Credential)
@@ -86,5 +79,14 @@ theorem auth_origin_ok (env : Prog.Env) (rp : RP) (o : RequestOptions) (a : Asse
     ∃ cd, env.answer (.clientData a.clientDataJSON) = .clientData cd ∧ Spec.OriginOK env cd.origin rp.origin := by
   obtain ⟨cd, h1, _, _, h4⟩ := ((C01.auth_iff env rp o a get cred).1 h).clientData
   exact ⟨cd, h1, h4⟩
+
+/-- the origin decision is independent of the environment: it is the label walk on the two hosts `Url.hostOf` reports,
+    and `false` as soon as either origin does not parse -/
+theorem origin_decision_is_label_walk (env : Prog.Env) (co ro : Bytes) :
+    Prog.run env (originMatches co ro) =
+      (match Url.hostOf co, Url.hostOf ro with
+       | some ch, some rh => labelWalk ch rh
+       | _, _ => false) :=
+  originMatches_run_eq env co ro
 
 end WebAuthn.C13
